@@ -450,6 +450,10 @@ CallResult perform(Subject& s, const gen::Program& prog, const Op& op, bool* mus
         Label l = note_label(select_label(s.labels, op.a[0], s.code), s.code);
         if (!s.code.is_label_valid(l) || s.code.is_label_bound(l)) *must_fail_out = true;
         if (s.code.is_label_valid(l) && s.code.is_label_bound(l)) s.last_must_fail_other = true;
+        // An Assembler's bind() consumes the pending inline comment (it is logged with the label): a refused bind() must
+        // not leave it for the next instruction - the string only has to live for one call. (A Builder's bind() adds a
+        // label node, which never takes the comment.)
+        if (e.is_assembler() && (op.a[1] & 1)) { e.set_inline_comment("one-shot comment"); sim::count("c14.probe.bind_with_pending_comment"); }
         r.err = e.bind(l);
         break;
       }
